@@ -1,5 +1,136 @@
-"""Checks decided with SortedAlgo.tla (C07, C08) and real-scheduler metamorphic runs for C10."""
+"""C10 with real schedulers: the scenarios of TLC-generated AcnSim behaviours are run under the real
+UncontrolledCharging and finite-rate SortedSchedulingAlgo (scripted answers of the behaviour are
+ignored; only its scenario is used) under spec-irrelevant variations - station registration order,
+session/event list order, constraint insertion order, time shift, duplicate build - and the
+per-station outputs must be identical."""
+import json
+import random
+import warnings
+
+from .common import jhash
+
+
+def _distinct_keys(sess, key):
+    """Sessions that are ever connected at the same time must have distinct priority keys
+    (the property excludes schedulers whose decisions hinge on ties)."""
+    for i, a in enumerate(sess):
+        for b in sess[i + 1:]:
+            overlap = a["arr"] < b["dep"] and b["arr"] < a["dep"]
+            if overlap and key(a) == key(b):
+                return False
+    return True
+
+
+def run_real(start, var_kw, seed, algo):
+    from datetime import datetime
+    from acnportal.acnsim import Simulator
+    from acnportal.acnsim.events import EventQueue, PluginEvent, RecomputeEvent
+    from acnportal.acnsim.models import EV, Battery
+    from acnportal.algorithms import (UncontrolledCharging, SortedSchedulingAlgo, first_come_first_served,
+                                      earliest_deadline_first, last_come_first_served)
+    from .acnsim_replay import Variation, build_network, sid, vid, KWH, START
+    var = Variation(random.Random(seed), **var_kw)
+    from acnportal.acnsim.network import ChargingNetwork
+    net = build_network(start, var, cls=ChargingNetwork)
+    k = var.shift
+    sess = start["sess"]
+    order = list(range(len(sess)))
+    if var.sess_perm:
+        order = [order[i] for i in var.sess_perm if i < len(order)] + [i for i in order if i not in var.sess_perm]
+    events = []
+    for i0 in order:
+        x = sess[i0]
+        ev = EV(x["arr"] + k, x["dep"] + k, x["req"] / KWH, sid(x["st"]), vid(i0 + 1),
+                Battery(x["cap"] / KWH, x["init"] / KWH, x["pw"] / 1000.0))
+        events.append(PluginEvent(x["arr"] + k, ev))
+    rec = [RecomputeEvent(r + k) for r in start["recomp"]]
+    events = (rec + events) if var.sess_perm else (events + rec)
+    alg = {"uncontrolled": lambda: UncontrolledCharging(),
+           "fcfs": lambda: SortedSchedulingAlgo(first_come_first_served),
+           "lcfs": lambda: SortedSchedulingAlgo(last_come_first_served),
+           "edf": lambda: SortedSchedulingAlgo(earliest_deadline_first)}[algo]()
+    sim = Simulator(net, alg, EventQueue(events), START, period=start["T"], verbose=False)
+    with warnings.catch_warnings():
+        warnings.simplefilter("ignore")
+        sim.run()
+    out = {}
+    for s in range(1, start["ns"] + 1):
+        j = sim.network.station_ids.index(sid(s))
+        p, r = sim.pilot_signals[j].tolist(), sim.charging_rates[j].tolist()
+        lead = (float(sum(abs(x) for x in p[:k])), float(sum(abs(x) for x in r[:k])))
+        out[sid(s)] = (_strip(p[k:]), _strip(r[k:]), lead)
+    en = {v: sim.ev_history[v].energy_delivered for v in sorted(sim.ev_history)}
+    return {"stations": out, "energy": en, "t": sim.iteration - k, "peak": float(sim.peak)}
+
+
+def _strip(xs):
+    xs = list(xs)
+    while xs and xs[-1] == 0:
+        xs.pop()
+    return xs
+
+
+def _work(args):
+    start, kws, seed, algo = args
+    base = None
+    for n, kw in enumerate(kws):
+        try:
+            o = run_real(start, kw, seed, algo)
+        except Exception as e:  # noqa
+            return {"owner": "C10" if n else "C07", "field": "real:%s:exception" % algo, "spec": "a completed run",
+                    "impl": "%s: %s" % (type(e).__name__, e), "variation": kw, "in_base": n == 0}
+        if base is None:
+            base = o
+            continue
+        for key in ("stations", "energy", "t", "peak"):
+            if json.dumps(base[key], sort_keys=True) != json.dumps(o[key], sort_keys=True):
+                return {"owner": "C10", "field": "real:%s:%s" % (algo, key), "spec": base[key], "impl": o[key],
+                        "variation": kw, "in_base": False}
+    return None
 
 
 def metamorphic_real_schedulers(rep, bhvs, seed):
-    return
+    from .props_acnsim import run_pool
+    jobs, seen = [], set()
+    for i, b in enumerate(bhvs):
+        start = b[0]
+        key = jhash([start["sess"], start["recomp"], start["ns"]])
+        if key in seen or not start["sess"]:
+            continue
+        seen.add(key)
+        r = random.Random(seed * 131 + i)
+        ns = start["ns"]
+        perm = list(range(ns))
+        r.shuffle(perm)
+        sp = list(range(len(start["sess"])))
+        r.shuffle(sp)
+        algos = ["uncontrolled"]
+        if _distinct_keys(start["sess"], lambda x: x["arr"]):
+            algos += ["fcfs", "lcfs"]
+        if _distinct_keys(start["sess"], lambda x: x["dep"]):
+            algos.append("edf")
+        algo = algos[i % len(algos)]
+        base = dict(constraints=["agg", "3ph"][i % 2], evse_kinds=["finite"] * ns)
+        kws = [dict(base), dict(base), dict(base, st_perm=perm), dict(base, sess_perm=sp), dict(base, con_perm=True),
+               dict(base, shift=r.choice([1, 2, 5])), dict(base, st_perm=perm, sess_perm=sp, con_perm=True)]
+        jobs.append((start, kws, seed * 7 + i, algo))
+    n = 0
+    for job, d in zip(jobs, run_pool(_work, jobs, 12)):
+        rep.replayed += len(job[1])
+        n += 1
+        if d is None:
+            continue
+        if d["owner"] == "C10":
+            rep.violation("C10:%s" % d["field"], "%s under %s: %s vs %s" % (
+                d["field"], d.get("variation"), json.dumps(d["spec"])[:160], json.dumps(d["impl"])[:160]),
+                {"kind": "case", "module": "props_sched", "fn": "replay_case",
+                 "case": {"start": job[0], "kws": job[1], "seed": job[2], "algo": job[3]}, "mismatch": d})
+        else:
+            rep.foreign_divergence(d["owner"])
+    rep.notes.append("%d scenarios run under the real UncontrolledCharging / SortedSchedulingAlgo (FCFS, LCFS, EDF on "
+                     "finite-rate EVSEs, only where simultaneously connected sessions have distinct keys), each under 7 "
+                     "variations" % n)
+
+
+def replay_case(case):
+    return _work((case["start"], case["kws"], case["seed"], case["algo"]))
